@@ -33,7 +33,7 @@ import (
 
 type cs struct {
 	Circ     int      `json:"circuit"`
-	Programs []string `json:"programs"` // one per thread: G garble, g garble with failing randomness, E eval+check newest, R release newest, r release newest twice, d release the most recently released garbling once more (stale handle), K refill the thread's key buffer in place, C compute+check, S a whole Garbler/Evaluator session on the shared circuit
+	Programs []string `json:"programs"` // one per thread: G garble, g garble with failing randomness, E eval+check newest, R release newest, r release newest twice, d release the most recently released garbling once more (stale handle), D drop the newest garbling's handle without releasing it and keep using its wires and tables (finalizers may run), K refill the thread's key buffer in place, C compute+check, S a whole Garbler/Evaluator session on the shared circuit
 	F        int      `json:"f,omitempty"`
 	P        int      `json:"p"`
 	E        int      `json:"e"`
@@ -71,6 +71,23 @@ type live struct {
 	g     *circuit.Garbled
 	key   []byte
 	owner int
+	// the caller's own copies of the garbling's slices (what it goes on using after it dropped the handle)
+	wires []ot.Wire
+	gates [][]ot.Label
+}
+
+func (l *live) w() []ot.Wire {
+	if l.g == nil {
+		return l.wires
+	}
+	return l.g.Wires
+}
+
+func (l *live) gt() [][]ot.Label {
+	if l.g == nil {
+		return l.gates
+	}
+	return l.g.Gates
 }
 
 type world struct {
@@ -98,10 +115,10 @@ func (w *world) fail(format string, a ...interface{}) {
 func (w *world) distinctScratch() {
 	seen := map[unsafe.Pointer]int{}
 	for _, l := range w.lives {
-		if l.g == nil || len(l.g.Wires) == 0 {
+		if len(l.w()) == 0 {
 			continue
 		}
-		p := unsafe.Pointer(&l.g.Wires[0])
+		p := unsafe.Pointer(&l.w()[0])
 		if o, ok := seen[p]; ok {
 			w.fail("shared-scratch: two live garblings (threads %d and %d) share one scratch buffer", o, l.owner)
 		}
@@ -119,7 +136,7 @@ func (w *world) checkEval(l *live, tid int, what string) {
 			in[i] = x>>i&1 == 1
 		}
 		ref, _ := bitsim.Eval(c, in)
-		if len(l.g.Wires) != c.NumWires {
+		if len(l.w()) != c.NumWires {
 			w.fail("wrong-result: thread %d %s: live garbling lost its wires", tid, what)
 			return
 		}
@@ -127,14 +144,14 @@ func (w *world) checkEval(l *live, tid int, what string) {
 			wires[i] = ot.Label{}
 		}
 		for i := 0; i < nin; i++ {
-			wires[i] = circuit.LabelForBit(l.g.Wires[i], in[i])
+			wires[i] = circuit.LabelForBit(l.w()[i], in[i])
 		}
-		if err := c.Eval(l.key, wires, l.g.Gates); err != nil {
+		if err := c.Eval(l.key, wires, l.gt()); err != nil {
 			w.fail("wrong-result: thread %d %s: Eval error %v", tid, what, err)
 			return
 		}
 		for wi := nin; wi < c.NumWires; wi++ {
-			if !wires[wi].Equal(circuit.LabelForBit(l.g.Wires[wi], ref[wi])) {
+			if !wires[wi].Equal(circuit.LabelForBit(l.w()[wi], ref[wi])) {
 				w.fail("wrong-result: thread %d %s: input %b wire %d evaluates to a wrong label (not what the call returns when run alone)", tid, what, x, wi)
 				return
 			}
@@ -260,11 +277,26 @@ func (w *world) thread(tid int, prog string) func() {
 							break
 						}
 					}
-					l.g.Release()
-					if op == 'r' {
+					if l.g != nil {
 						l.g.Release()
+						if op == 'r' {
+							l.g.Release()
+						}
+						released = append(released, l.g)
 					}
-					released = append(released, l.g)
+				}
+			case 'D':
+				// the caller drops the handle of its newest garbling without releasing it and goes on using the
+				// wires and tables it holds (a garbling stays valid until it is released); a finalizer attached
+				// to the handle, if any, may run from now on at any time
+				if len(mine) > 0 {
+					l := mine[len(mine)-1]
+					if l.g != nil {
+						l.wires, l.gates = l.g.Wires, l.g.Gates
+						g := l.g
+						l.g = nil
+						csched.Drop(g)
+					}
 				}
 			case 'd':
 				// a late second Release through a stale handle: others may have garbled in between
@@ -440,8 +472,8 @@ func work(ctx *runner.Ctx) {
 	if err := csched.SelfTest(); err != nil {
 		panic(err)
 	}
-	progs2 := []string{"GER", "GRGE", "GErr", "C", "gGER", "GGERR", "GREG", "GRdGE", "GRKGE"}
-	progs3 := []string{"GER", "GRGE", "C", "gGE", "GRd", "GERKGE"}
+	progs2 := []string{"GER", "GRGE", "GErr", "C", "gGER", "GGERR", "GREG", "GRdGE", "GRKGE", "GDGE"}
+	progs3 := []string{"GER", "GRGE", "C", "gGE", "GRd", "GERKGE", "GDG"}
 	var cases []cs
 	// whole protocol sessions sharing the circuit with each other and with direct users
 	for _, ci := range sessionCircuits {
@@ -480,7 +512,7 @@ func work(ctx *runner.Ctx) {
 	}
 	// unbounded exploration (sleep sets): every interleaving up to Mazurkiewicz equivalence and every pool answer
 	var ucases, uheavy []cs
-	uprogs := []string{"GER", "GRGE", "GErr", "C", "gGER"}
+	uprogs := []string{"GER", "GRGE", "GErr", "C", "gGER", "GDGE"}
 	ucircs := []int{0, 1}
 	if !ctx.Quick() {
 		uprogs = progs2
